@@ -268,7 +268,10 @@ def found_carriers(facts):
                 if ty.startswith("&") and not ty.startswith("&mut") and " mut " not in ty.split("<", 1)[0]:
                     continue
                 hd = f.get("head")
-                generic = isinstance(hd, str) and hd.startswith("param:") and any(
+                params = [g["name"] for g in im.get("generics", []) if g.get("kind") == "ty"]
+                inside = [g for g in params if __import__("re").search(r"(^|[<\[(, &])%s($|[>\]), ;])" % __import__("re").escape(g), ty)]
+                bounded = [g for g in inside if any((": " + t + "<") in p_ or p_.endswith(": " + t) for p_ in im.get("preds", []) if p_.split(":", 1)[0].split()[-1] == g for t in LIFECYCLE_TRAITS)]
+                generic = bool(bounded) or isinstance(hd, str) and hd.startswith("param:") and any(
                     (": " + t + "<") in p_ or p_.endswith(": " + t) for p_ in im.get("preds", []) if p_.split(":", 1)[0].split()[-1] == hd[6:] for t in LIFECYCLE_TRAITS)
                 if (_holds_systems(ty, heads) or generic) and f["name"] not in fls:
                     fls.append(f["name"])
@@ -306,7 +309,8 @@ def carrier_paths(facts, head, depth=3):
 def unlisted(ctx, report, rule, facts, config, families, only=None):
     """Methods of a carrier that are not in the FANOUT table (a new dispatch variant, a helper that runs part of a stage) but
     hand the carrier's systems to a lifecycle family: whatever they are called, on each carrier field they touch that way they
-    owe the same thing as the listed ones - every element exactly once on every way through, or not at all."""
+    owe the same thing as the listed ones - on every way through, every element exactly once or none at all (what the method
+    is for decides on which ways; a part of the elements, or one twice, is right for no purpose)."""
     prog = ctx.program(facts)
     parallel = ctx.parallel(config)
     try:
@@ -382,7 +386,7 @@ def unlisted(ctx, report, rule, facts, config, families, only=None):
                 n += 1
                 cov = coverage(prog, r, Src(SELF, path), fam, vacuous=True, extra_opaque=member_names, keep=set())
                 statuses.append(cov.status)
-                ok = cov.status in ("once", "never")
+                ok = cov.status in ("once", "never", "some")
                 if family == DISPOSE and len(path) == 1 and cov.status == "never" and not delegated and not r.locals[1]["ty"].startswith("&"):
                     # it consumes the carrier: what it does not hand to dispose is dropped without its hook ever running
                     ok = False
